@@ -6,6 +6,9 @@ CONSTANTS Src = {"v","b"}
           Gated = {}
           MaxH = 0
           EmitOn = "edge"
+          GovChains = {"b","t","v"}
+          RelayOn = FALSE
+          Silent = {"v","r"}
 VIEW View
 INVARIANT TypeOK
 PROPERTY PropC20 PropC21 PropC22
